@@ -38,6 +38,14 @@ func TestC30(t *testing.T) {
 	nSeeds := mon.Pick(5000, 100000)
 	intArgs := []int{math.MinInt, -1 << 40, -2, -1, 0, 1, 2, 3, 7, 10, 255, 256, 1000, 1 << 20, 1<<31 - 1, 1 << 31, math.MaxInt}
 	rangeArgs := [][2]int{{0, 0}, {0, 1}, {5, 5}, {5, 4}, {5, -5}, {-3, 7}, {-3, -1}, {-10, -20}, {0, 1 << 30}, {7, 9}, {math.MinInt, 3}, {2, math.MaxInt - 3}, {100, 50}, {-5, 0}}
+	// every pair of extreme / boundary ints as (min, max): empty intervals whose width
+	// overflows int, full-width intervals, negatives
+	ext := []int{math.MinInt, math.MinInt + 1, math.MinInt + 1000, -(1 << 62), -1, 0, 1, 2, 1000, 1 << 62, math.MaxInt - 1, math.MaxInt}
+	for _, a := range ext {
+		for _, b := range ext {
+			rangeArgs = append(rangeArgs, [2]int{a, b})
+		}
+	}
 	weights := []float64{-1e9, -1, -1e-300, 0, math.Copysign(0, -1), 1, 1.0000001, 2, 1e300, math.Inf(1), math.Inf(-1)}
 	parallel(nSeeds, func(i int) {
 		rg := Sub("C30", i)
